@@ -13,6 +13,8 @@ OpOf(a) == CASE a = "S0"   -> <<"status", 0>>
              [] a = "S201" -> <<"status", 201>>
              [] a = "S404" -> <<"status", 404>>
              [] a = "S500" -> <<"status", 500>>
+             [] a = "S299" -> <<"status", 299>>      \* a legal code net/http has no text for: a status like any other
+             [] a = "S520" -> <<"status", 520>>
              [] a = "W0"   -> <<"write", 0, "full">>
              [] a = "W1"   -> <<"write", 1, "full">>
              [] a = "W3"   -> <<"write", 3, "full">>
